@@ -812,9 +812,9 @@ pub fn run(prop: &'static str, tier: &str, seed: u64) -> i32 {
     let mut rep = Report::new(prop, tier, seed, level);
     rep.rule = match prop {
         "C14" => "a normal 2- or 3-party run on the explorer; at (every / every k-th) idle point one stray command is injected at each party: duplicate schedule, run, consts, validate, mpc_msg with sender index n, n+1, usize::MAX (and, before scheduling, in-range senders). A command counts as definitely invalid only if it is invalid in every state the actor can be in given the RPC history; those must be answered Err, no actor may panic, and the C13 oracle must still hold for the computation. distinct = (program, leader, idle point, party, command kind); non-trivial = the command was injected and classified. HTTP layer: two polytune-http-server instances on loopback sockets, per scenario one 2-party computation and one stray HTTP request (duplicate / ill-typed schedule, run, consts, validate, msg with own / out-of-range sender, unknown computation ids; before the schedules or 0..150 ms after them): requests invalid in every state get a non-2xx answer, both destinations still receive the correct result exactly once, both servers answer /health afterwards".to_string(),
-        "C15" => "cancel() injected at every idle point (coordination and, with gated MPC messages, MPC events) on each party, with MPC messages gated and ungated, plus cancels injected while the compile thread of a heavier program is alive. Oracle when cancel() returned Ok: actor stopped at quiescence, exactly one notification (Cancelled, or the real result) if the party has a destination and had been scheduled, nothing sent to it after cancel returned, all permits back. distinct = (program, leader, gating, idle point, party); non-trivial = cancel() returned Ok".to_string(),
+        "C15" => "cancel() injected at every idle point (coordination and, with gated MPC messages, MPC events) on each party, with MPC messages gated and ungated, plus cancels injected while the compile thread of a heavier program is alive. Oracle when cancel() returned Ok: actor stopped at quiescence, exactly one notification (Cancelled, or the real result) if the party has a destination and had been scheduled, nothing sent to it after cancel returned, all permits back. distinct = (program, leader, gating, idle point, party); non-trivial = cancel() returned Ok. HTTP layer (hx c15): a real polytune-http-server with ServerOpts::cancel and 1..3 scheduled two-party policies is cancelled through Cancel::cancel() 0..260 ms after its schedule calls were answered; per scheduled policy the output receiver must have seen exactly one notification, none after cancel() returned, a delivered result must be correct".to_string(),
         "C16" => "program or leader mismatch at each single follower that still regards itself as follower, and ill-typed programs at each party, n in {2,3}, every leader, scripted arrival / delivery orders (validate before and after the follower's schedule) plus random orders. Oracle: the schedule calls of that follower and of the leader end with an error, no Ok output anywhere, zero msg() calls, no panic. distinct = (program, leader, mismatch kind, party, order); every case is non-trivial".to_string(),
-        _ => "batches of 1..8 two-party policies with concurrency 1..3, mixed leaders, output destination present or absent, random delivery orders, one failure injected into a single validate / run / consts RPC, cancels mixed in, plus the single-computation shapes for each failing RPC kind x destination x leader. Oracle: per leader the number of overlapping [first run RPC issued .. last RPC / output activity] intervals never exceeds the concurrency; at quiescence all permits are back; after a failed call the caller's actor has stopped and (run, consts) its destination got exactly one error notification, (validate) schedule returned Err or the destination got one. distinct = (batch size, concurrency, failing kind, cancel, case index); non-trivial = the scenario reached quiescence".to_string(),
+        _ => "batches of 1..8 two-party policies with concurrency 1..3, mixed leaders, output destination present or absent, random delivery orders, one failure injected into a single validate / run / consts RPC, cancels mixed in, plus the single-computation shapes for each failing RPC kind x destination x leader. Oracle: per leader the number of overlapping [first run RPC issued .. last RPC / output activity] intervals never exceeds the concurrency; at quiescence all permits are back; after a failed call the caller's actor has stopped and (run, consts) its destination got exactly one error notification, (validate) schedule returned Err or the destination got one. distinct = (batch size, concurrency, failing kind, cancel, case index); non-trivial = the scenario reached quiescence. HTTP layer (hx c17): real servers with ServerOpts::concurrency 1..2, batches of 3..5 policies led by one server, a logging proxy in front of the follower that fails one validate / run / consts request with 400 / 404 / 500 / 503: overlap of [run seen at proxy .. leader notification seen at destination] <= concurrency; a finally failed call gives exactly one error notification; afterwards `concurrency` control computations whose run requests are held at the proxy until all have arrived must succeed (whole budget back), with a control led by the other server to tell a leaked permit from load (otherwise inconclusive)".to_string(),
     };
     rep.assumptions = vec!["exact quiescence: paused clock idle, no pending delivery, no extra OS thread".into(), "C14 additionally drives the HTTP layer (real servers on loopback sockets, wall-clock timing, 2 parties); C13 / C15-C17 are decided at the server-core boundary".into()];
     let cs = cases(prop, tier, seed);
@@ -852,6 +852,12 @@ pub fn run(prop: &'static str, tier: &str, seed: u64) -> i32 {
     }
     if prop == "C14" {
         http_layer(&mut rep, tier, seed);
+    }
+    if prop == "C15" {
+        http_c15(&mut rep, tier, seed);
+    }
+    if prop == "C17" {
+        http_c17(&mut rep, tier, seed);
     }
     rep.finish()
 }
@@ -936,5 +942,171 @@ fn http_layer(rep: &mut Report, tier: &str, seed: u64) {
         rep.harness_error(format!("hx produced no scenario records: {}", String::from_utf8_lossy(&out.stderr).lines().last().unwrap_or("")));
     } else if !health_ok {
         rep.inconclusive("hx did not report the final health of the servers");
+    }
+}
+
+
+/// Runs `hx <mode> <seed> <n>` in `procs` processes (seeds seed*16+i) and returns the JSON records.
+fn run_hx(rep: &mut Report, mode: &str, seed: u64, n: usize, procs: usize) -> Vec<Value> {
+    let root = std::env::var("PV_ROOT").unwrap_or_else(|_| "/verif".into());
+    let exe = std::path::Path::new(&root).join("httpx/target/release/hx");
+    if !exe.exists() {
+        rep.set("http_layer", json!("not run: httpx/target/release/hx has not been built (./check builds it)"));
+        rep.inconclusive("HTTP-layer scenarios not run (hx binary missing)");
+        return vec![];
+    }
+    let children: Vec<_> = (0..procs)
+        .map(|i| std::process::Command::new(&exe).arg(mode).arg((seed.wrapping_mul(16) + i as u64).to_string()).arg(n.to_string()).stdout(std::process::Stdio::piped()).stderr(std::process::Stdio::null()).spawn())
+        .collect();
+    let mut v = vec![];
+    for c in children {
+        match c.and_then(|c| c.wait_with_output()) {
+            Ok(o) => {
+                for l in String::from_utf8_lossy(&o.stdout).lines() {
+                    if let Ok(d) = serde_json::from_str::<Value>(l) {
+                        v.push(d);
+                    }
+                }
+            }
+            Err(e) => rep.harness_error(format!("cannot run hx: {e}")),
+        }
+    }
+    v
+}
+
+/// C15 at the HTTP layer (server.rs `Cancel`, api.rs `cancel_all`): a real server with 1..3 scheduled
+/// two-party policies (leader or follower, states between Validated and finished) is cancelled through
+/// `Cancel::cancel()`; the output receiver timestamps every notification.
+fn http_c15(rep: &mut Report, tier: &str, seed: u64) {
+    let thorough = tier == "thorough";
+    let recs = run_hx(rep, "c15", seed, if thorough { 150 } else { 40 }, if thorough { 4 } else { 1 });
+    let mut seen = 0u64;
+    let mut kinds = std::collections::BTreeMap::new();
+    for d in recs.iter().filter(|d| d.get("c15_scenario").is_some()) {
+        seen += 1;
+        rep.evaluations += 1;
+        if !d["cancel_returned"].as_bool().unwrap_or(false) {
+            rep.inconclusive("HTTP layer: Cancel::cancel() did not return within 30 s");
+            continue;
+        }
+        let t_ret = d["t_cancel_return"].as_f64().unwrap_or(f64::MAX);
+        let t_call = d["t_cancel_call"].as_f64().unwrap_or(0.0);
+        for c in d["per_computation"].as_array().cloned().unwrap_or_default() {
+            if c["schedule_status_at_cancelled_server"].as_i64() != Some(200) {
+                continue;
+            }
+            let ns = c["notifications_at_cancelled_server"].as_array().cloned().unwrap_or_default();
+            let class = match ns.first() {
+                None => "none".to_string(),
+                Some(n) => format!("{}{}", n["type"].as_str().unwrap_or("?"), if n["t"].as_f64().unwrap_or(0.0) < t_call { " before the cancel call" } else { " during the cancel call" }),
+            };
+            *kinds.entry(class.clone()).or_insert(0u64) += 1;
+            rep.distinct.insert(format!("http cancel: {} policies, delay {} ms, leader={}, {}", d["computations"], d["delay_ms"], c["leader"], class));
+            if ns.is_empty() {
+                rep.violation("HTTP layer: Cancel::cancel() returned but the output destination of a scheduled policy was never notified".to_string(), d.clone());
+            } else if ns.len() > 1 {
+                rep.violation("HTTP layer: the output destination of a cancelled server was notified more than once".to_string(), d.clone());
+            } else if ns.iter().any(|n| n["t"].as_f64().unwrap_or(0.0) > t_ret) {
+                rep.violation("HTTP layer: a notification was sent after Cancel::cancel() had returned".to_string(), d.clone());
+            } else if ns[0]["type"] == "success" && ns[0]["ok"] != true {
+                rep.violation("HTTP layer: the result delivered by a cancelled server is wrong".to_string(), d.clone());
+            }
+        }
+    }
+    rep.set("http_cancel_scenarios", json!(seen));
+    rep.set("http_cancel_notification_classes", json!(kinds));
+    if seen == 0 && !rep.rule.is_empty() {
+        rep.inconclusive("HTTP layer: no cancel scenario was observed");
+    }
+}
+
+/// C17 at the HTTP layer (ServerOpts::concurrency, api.rs): the leader's run requests pass a logging proxy
+/// that can answer one validate / run / consts request with an error status; see `hx c17`.
+fn http_c17(rep: &mut Report, tier: &str, seed: u64) {
+    let thorough = tier == "thorough";
+    let recs = run_hx(rep, "c17", seed, if thorough { 40 } else { 10 }, if thorough { 6 } else { 3 });
+    let mut seen = 0u64;
+    let mut max_overlap = std::collections::BTreeMap::new();
+    for d in recs.iter().filter(|d| d.get("c17_scenario").is_some()) {
+        seen += 1;
+        rep.evaluations += 1;
+        let conc = d["concurrency"].as_u64().unwrap_or(0) as usize;
+        let comps = d["per_computation"].as_array().cloned().unwrap_or_default();
+        let has_dest = d["leader_has_destination"].as_bool().unwrap_or(false);
+        let fr = &d["failed_request"];
+        rep.distinct.insert(format!("http budget: conc {} batch {} dest {} fail {} {} status {}", conc, d["computations"], has_dest, fr["kind"].as_str().unwrap_or("none"), fr["occurrence"], fr["status"]));
+        // (1) overlap of [run seen at the proxy .. leader's notification seen at the destination]
+        let mut ev: Vec<(f64, i32)> = vec![];
+        for c in &comps {
+            if let (Some(a), Some(b)) = (c["run_seen_at_proxy"].as_f64(), c["leader_notifications"].get(0).and_then(|n| n["t"].as_f64())) {
+                if b > a {
+                    ev.push((a, 1));
+                    ev.push((b, -1));
+                }
+            }
+        }
+        ev.sort_by(|x, y| x.0.partial_cmp(&y.0).unwrap().then(x.1.cmp(&y.1)));
+        let (mut cur, mut mx) = (0i32, 0i32);
+        for (_, dlt) in ev {
+            cur += dlt;
+            mx = mx.max(cur);
+        }
+        let e = max_overlap.entry(format!("concurrency {conc}")).or_insert(0i32);
+        *e = (*e).max(mx);
+        if mx as usize > conc {
+            rep.violation("HTTP layer: more computations were led at the same time than the configured concurrency".to_string(), d.clone());
+            continue;
+        }
+        // (2) the policy hit by a failing call ends at the caller
+        let reverse_ok = d["control_led_by_the_other_server"]["type"] == "success";
+        let failed_id = fr["computation"].as_str().map(|s| s.to_string());
+        let mut final_failure = false;
+        if let Some(fid) = &failed_id {
+            if let Some(c) = comps.iter().find(|c| c["id"].as_str() == Some(fid.as_str())) {
+                let ln = c["leader_notifications"].as_array().cloned().unwrap_or_default();
+                let retried = !c["follower_notifications"].as_array().map(|a| a.is_empty()).unwrap_or(true) || ln.iter().any(|n| n["type"] == "success");
+                if !retried {
+                    final_failure = true;
+                    if has_dest {
+                        let errs = ln.iter().filter(|n| n["type"] == "error").count();
+                        let idx = comps.iter().position(|c| c["id"].as_str() == Some(fid.as_str())).unwrap_or(0);
+                        let sched_err = fr["kind"] == "validate" && d["schedule_status"][2 * idx].as_i64() != Some(200);
+                        if errs > 1 {
+                            rep.violation("HTTP layer: a failed call was reported to the output destination more than once".to_string(), d.clone());
+                            continue;
+                        }
+                        if errs == 0 && !sched_err {
+                            if reverse_ok {
+                                rep.violation(format!("HTTP layer: after a failed {} call (status {}) the caller's policy did not end with an error notification", fr["kind"].as_str().unwrap_or("?"), fr["status"]), d.clone());
+                            } else {
+                                rep.inconclusive("HTTP layer: no error notification and the control computation did not finish either (load)");
+                            }
+                            continue;
+                        }
+                    }
+                }
+            }
+        }
+        // (3) the whole budget is available again
+        let ended = d["all_ended_within_60s"].as_bool().unwrap_or(false);
+        let ctl_ok = d["control_led_by_same_server"]["type"] == "success" && d["control_runs_held_together_at_proxy"].as_u64().unwrap_or(0) as usize >= conc;
+        if ended && !ctl_ok {
+            if reverse_ok {
+                rep.violation(format!("HTTP layer: after all policies ended the server could not lead {conc} computation(s) at the same time (budget not returned)"), d.clone());
+            } else {
+                rep.inconclusive("HTTP layer: control computations did not finish in either direction (load)");
+            }
+        } else if !ended {
+            if final_failure && reverse_ok && !ctl_ok {
+                rep.violation("HTTP layer: after a failed call the computations queued behind it at the same leader never ran (permit not returned)".to_string(), d.clone());
+            } else {
+                rep.inconclusive("HTTP layer: a batch did not end within 60 s");
+            }
+        }
+    }
+    rep.set("http_budget_scenarios", json!(seen));
+    rep.set("http_budget_max_overlap_seen", json!(max_overlap));
+    if seen == 0 {
+        rep.inconclusive("HTTP layer: no budget scenario was observed");
     }
 }
